@@ -503,6 +503,11 @@ class SSETransport(Transport):
                         # Try to parse response anyway
                         try:
                             response_data = response.json()
+                            if not (
+                                isinstance(response_data, dict)
+                                and "jsonrpc" in response_data
+                            ):
+                                raise ValueError("Response body is not JSON-RPC")
                             await self._route_incoming_message(response_data)
                         except Exception:
                             # Send error response
